@@ -532,6 +532,26 @@ def coll_oracle(interp, env, f, args, t, bb, path):
             return unit
 
     if isinstance(v0, Agg) and v0.kind in ("array", "slice") and v0.name is None:
+        rng_arg = load(interp, env, args[1]) if len(args) > 1 else None
+        if isinstance(rng_arg, Agg) and (rng_arg.name or "").startswith("core::ops::range::Range") and \
+                (dk in ("core::ops::index::Index::index", "core::ops::index::IndexMut::index_mut") or nm in ("get", "get_mut")):
+            b = _range_bounds(rng_arg, len(v0.fields))
+            if b is None:
+                return TOP
+            lo, hi = b
+            if lo > hi or hi > len(v0.fields):
+                return NONE if nm in ("get", "get_mut") else "DIVERGE"
+            sub = Agg("slice" if v0.kind == "slice" else "array", None, None, v0.fields[lo:hi])
+            return some(sub) if nm in ("get", "get_mut") else sub
+        if dk in ("core::ops::index::Index::index", "core::ops::index::IndexMut::index_mut") and isinstance(rng_arg, int) and not isinstance(rng_arg, bool):
+            if not (0 <= rng_arg < len(v0.fields)):
+                return "DIVERGE"
+            x_ = v0.fields[rng_arg]
+            return x_ if isinstance(x_, HRef) else x_
+        if nm in ("first", "last") and len(args) == 1:
+            return (some(v0.fields[0 if nm == "first" else -1]) if v0.fields else NONE)
+        if nm == "is_empty":
+            return len(v0.fields) == 0
         if nm == "contains" and len(args) == 2:
             res = False
             for x in v0.fields:
